@@ -148,3 +148,47 @@ def _c12_lift(sub: dict, params: dict) -> bool:
     if not parts:
         return False
     return any(not rs.accepts(t, kids) for t, kids in parts)
+
+
+@predicate("c04_add_node_mark_displacement_not_restorable")
+def _c04_nodemark(sub: dict, params: dict) -> bool:
+    """AddNodeMarkStep whose mark displaces >= 2 marks of the target node, or displaces exactly one mark that does
+    not itself exclude the added mark (so adding it back is refused or leaves the new mark in place)."""
+    if sub.get("mode") != "c04" or sub.get("step", {}).get("k") != "addNodeMark":
+        return False
+    from .gen import schemas
+    from .ref import marks as rm
+    from .ref import resolve as RR
+
+    _lib, rs = schemas.get(sub["schema"])
+    step = sub["step"]
+    node = RR.node_at(RR.N(sub["doc_before"], rs), step["pos"])
+    if node is None:
+        return False
+    m = step["mark"]
+    new = rm.ref_add(rs, m, node["m"])
+    displaced = [x for x in node["m"] if not rm.in_set(x, new)]
+    if len(displaced) >= 2:
+        return True
+    return len(displaced) == 1 and not rs.excludes(displaced[0][0], m[0])
+
+
+@predicate("c04_structure_around_step_inserting_leaves")
+def _c04_structure_around(sub: dict, params: dict) -> bool:
+    """ReplaceAroundStep flagged structure=True whose slice is more than wrappers around the gap (it inserts text,
+    leaf nodes or complete sibling nodes): its inverse has to delete them and carries the same flag, so it
+    refuses ('would overwrite content')."""
+    if sub.get("mode") != "c04":
+        return False
+    step = sub.get("step", {})
+    if step.get("k") != "around" or not step.get("structure"):
+        return False
+    from .gen import schemas
+    from .ref import plain as P
+
+    _lib, rs = schemas.get(sub["schema"])
+    toks = P.tokens_of(step["slice"]["c"], rs.leaf_types)
+    inner = toks[step["slice"]["os"] : len(toks) - step["slice"]["oe"]]
+    before, after = inner[: step["insert"]], inner[step["insert"] :]
+    pure_wrappers = all(t[0] == "open" for t in before) and all(t[0] == "close" for t in after)
+    return not pure_wrappers
